@@ -177,6 +177,13 @@ class Senders:
             s.bind(("127.0.0.%d" % (i + 2), 0))
             self.socks["127.0.0.%d" % (i + 2)] = s
 
+    def add(self, addr):
+        """one more exporter, at a given loopback address"""
+        if addr not in self.socks:
+            s = socket.socket(socket.AF_INET, socket.SOCK_DGRAM)
+            s.bind((addr, 0))
+            self.socks[addr] = s
+
     def send(self, src, port, payload):
         self.socks[src].sendto(bytes(payload), ("127.0.0.1", port))
 
